@@ -9,8 +9,10 @@ THEOREMS = {
     "Dawgs.Props.C17": [P + t for t in [
         "pipe_fifo", "pipe_complete", "pipe_writer_never_waits_on_reader",
         "bf_pipe_refines", "bf_counter_inv", "bf_no_early_exit", "bf_exactly_once", "bf_measure", "bf_terminates",
-        "bf_terminates_partial", "bf_terminates_refuted", "bf_error_cancels", "bf_return_joins_workers",
-        "limit_skip_window", "range_partition_exact", "c17_partial", "c17_full_refuted"]],
+        "bf_live_ctx_error_recorded", "bf_error_cancels", "bf_return_joins_workers",
+        "limit_skip_window", "range_partition_exact", "c17_partial", "c17_full_of_seq_paths",
+        # theorems about the protocol BEFORE the repair of finding F14 (cfg.fixed = false)
+        "bf_terminates_partial_old", "bf_terminates_refuted_old", "c17_full_old_refuted"]],
     "Dawgs.Tie.C17Order": [TIE + t for t in [
         "skeleton_breadthFirst", "skeleton_bufferedPipe", "skeleton_submit_receive",
         "order_inc_before_submit", "order_dec_after_loop", "order_completion_after_dec",
@@ -152,7 +154,8 @@ def prove_per_module(ctx, spec):
             axioms[t] = axs
             if not tok:
                 failed.append("theorem %s: %s" % (t, ",".join(axs)))
-    ok, out = verif.lake_build(ctx, ["dawgsmodel"])
+    exes = sorted({verif.model_exe(su[k]) for su in spec["suites"] for k in ("model_suite", "monitor_suite") if su.get(k)})
+    ok, out = verif.lake_build(ctx, exes)
     if not ok:
         failed.append("model driver does not build")
         logs.append(out[-2000:])
@@ -199,13 +202,14 @@ SPEC = {
     "extra_coverage": extra_coverage,
     "rule": "c17pipe: every script over {sub,read,close,cancel} up to length 5 (quick) / 7 (thorough) + random scripts (3-60 ops, repeated values) + slow-reader "
             "bursts, each ended by close+drain; c17cpipe: concurrent writer/reader bursts and cancel-at-step-i; c17bf/c17tbf: all trees <= 4 nodes x workers 1..3 x "
-            "every fault point of {driver error, context cancel, memory limit}, + random trees (1-200 nodes, thorough up to 4000; chain/star/bushy/random shapes) x "
+            "every fault point of {driver error, context cancel, memory limit, context-class driver error while live, context-class driver error after cancel}, + random trees (1-200 nodes, thorough up to 4000; chain/star/bushy/random shapes) x "
             "workers 1..8 x fault at a random driver call, literal and Descend-built segments; c17seq: random digraphs <= 7 nodes x 4 helpers x 2 directions x skip/limit. "
             "A case is non-trivial when: pipe script with >= 2 submissions and a read or a cancel; any concurrent burst; a traversal of >= 3 segments with >= 2 workers "
             "or any injected fault; a helper run on a graph with >= 2 edges. distinct = distinct op-line sequences (sha1)",
     "expected_branches": ["branch.pipe.submit_while_buffered", "branch.pipe.close_with_buffered", "branch.pipe.cancel_with_buffered",
                           "branch.pipe.flush_exit", "branch.pipe.read_empty", "branch.pipe.submit_refused", "branch.pipe.burst",
                           "branch.bf.fault_hit_err", "branch.bf.fault_hit_cancel", "branch.bf.fault_hit_mem", "branch.bf.workers_8",
+                          "branch.bf.fault_hit_swallow", "branch.bf.fault_hit_cswallow", "branch.bf.ctx_class_error_reported",
                           "branch.bf.memlimit"],
     "trusted_base": ["Go channel / select / context / sync/atomic / WaitGroup semantics (modelled as atomic rendezvous and atomic counter ops)",
                      "gammazero/deque (modelled as a list)",
@@ -214,6 +218,7 @@ SPEC = {
     "assumptions": ["numWorkers >= 1 (numWorkers = 0 hangs: outside the quantifier 1..N)",
                     "the driver is a function of the segment (a finite tree); drivers with side effects across segments (UniquePathSegmentFilter) are not modelled",
                     "graph.ID arithmetic in parallelNodeQuery does not overflow uint64 (modelled on Nat)",
+                    "fault injection: one fault per run (the k-th driver call), the driver otherwise a pure function of the segment",
                     "liveness is stated as: every non-returned reachable state has an enabled step and every step decreases a Nat bound; that the Go scheduler eventually runs an enabled goroutine is trusted"],
     "explanation": "Lean LTS proofs over all schedules/worker counts/trees/fault points + differential and monitor ties against the real pipe and BreadthFirst",
 }
@@ -226,9 +231,10 @@ MANIFEST = {
     "text": "Lean theorems over ALL interleavings, all worker counts N>=1, all finite driver trees and a fault (driver error, memory limit, context cancel) at any "
             "driver call: the pipe delivers a prefix of what was submitted in order and everything once closed, and never blocks the writer; descentCount equals "
             "queued + in-expansion + counted-not-yet-submitted segments; the coordinator reads 0 only when everything was expanded; segments are expanded at most "
-            "once and exactly the tree on a clean exit; an error cancels and is reported after all workers joined; every step decreases a bound and (repaired "
-            "protocol) some step is always enabled until return. The code as it is hangs when a driver error is context.Canceled/ErrContextTimedOut-class while "
-            "the context is live: refuted in Lean by the witness that also hangs the real code (known finding), termination proved for all other schedules. "
+            "once and exactly the tree on a clean exit; an error of ANY class cancels, is reported (a context-class error iff the traversal context was live) after "
+            "all workers joined; every step decreases a bound and some step is always enabled until return. The live model is the repaired worker error branch "
+            "(finding F14: before the repair a context.Canceled/ErrContextTimedOut-class driver error on a live context hung BreadthFirst; kept as a refutation "
+            "theorem about the old definition, and the order-fact tie rejects the old source shape). "
             "LimitSkipTracker window and the parallelNodeQuery range partition are proved for all inputs.",
     "note": "Partial: goroutine cleanup and promptness are observed by the harness (NumGoroutine settles, hang detector), not proved; the PathSegment.size roll-up "
             "race is outside the LTS (counted under -race in the thorough tier); ops.Traversal DFS = path spec is stated but only tested by the tie. Trusted: Lean "
